@@ -17,7 +17,8 @@ EXTENDS VFS, SequencesExt, FiniteSetsExt
 CONSTANTS Procs, Scenario, MaxIno,
           IgnoreENOENT,      \* TRUE = the code; FALSE = mechanism removed
           NoFollowOnOpen,    \* TRUE = the code; FALSE = opendir follows a symlink
-          MaxAttack          \* 0 or 1: an attacker may once exchange the victim entry with the staged entry Scenario.swap
+          MaxAttack,         \* 0 or 1: an attacker may once exchange the victim entry with the staged entry Scenario.swap
+          AnyOrder           \* TRUE: getdents may list a directory in any order (POSIX); FALSE: by inode number (smaller graph for schedule generation)
 
 VARIABLES fs, fs0, stack, res, who, natk
 vars == <<fs, fs0, stack, res, who, natk>>
@@ -57,6 +58,7 @@ RECURSIVE SortedSeq(_)
 SortedSeq(S) == IF S = {} THEN <<>> ELSE LET m == Min(S) IN <<m>> \o SortedSeq(S \ {m})
 NameOf(f, d, c) == (CHOOSE e \in f.dents : e[1] = d /\ e[3] = c)[2]
 Listing(f, d) == LET ids == {e[3] : e \in Children(f, d)} IN [i \in DOMAIN SortedSeq(ids) |-> NameOf(f, d, SortedSeq(ids)[i])]
+Orders(f, d) == IF AnyOrder THEN SetToSeqs({e[2] : e \in Children(f, d)}) ELSE {Listing(f, d)}
 
 Step(p) ==
     /\ stack[p] # <<>>
@@ -77,7 +79,8 @@ Step(p) ==
               /\ fs' = fs
               /\ IF ~o.ok THEN Return(p, o.err)
                  ELSE IF IsLnk(fs, o.ino) THEN
-                      (IF NoFollowOnOpen THEN Return(p, "ELOOP")
+                      \* O_DIRECTORY|O_NOFOLLOW on a symlink: do_open() answers ENOTDIR before may_open() could say ELOOP
+                      (IF NoFollowOnOpen THEN Return(p, "ENOTDIR")
                        ELSE \* a following open lands on the link's target (relative to the link's directory, on the host)
                             LET k == KWalk(fs, P, f.d, Norm(fs.body[o.ino]).comps, 0, [follow |-> TRUE, dir |-> FALSE, opath |-> TRUE, nosym |-> FALSE], 40) IN
                             IF k.ok /\ IsDir(fs, k.ino) THEN stack' = SetTop(p, [f EXCEPT !.pc = "scan", !.sub = k.ino]) /\ UNCHANGED res
@@ -85,10 +88,10 @@ Step(p) ==
                  ELSE IF ~IsDir(fs, o.ino) THEN Return(p, "ENOTDIR")
                  ELSE stack' = SetTop(p, [f EXCEPT !.pc = "scan", !.sub = o.ino]) /\ UNCHANGED res
          [] f.pc = "scan" ->
-              LET l == Listing(fs, f.sub) IN
               /\ fs' = fs /\ UNCHANGED res
-              /\ IF l = <<>> THEN stack' = SetTop(p, [f EXCEPT !.pc = "unlink", !.final = TRUE])
-                 ELSE stack' = SetTop(p, [f EXCEPT !.pc = "iter", !.todo = l])
+              /\ \E l \in Orders(fs, f.sub) :
+                   IF l = <<>> THEN stack' = SetTop(p, [f EXCEPT !.pc = "unlink", !.final = TRUE])
+                   ELSE stack' = SetTop(p, [f EXCEPT !.pc = "iter", !.todo = l])
          [] f.pc = "iter" ->
               /\ fs' = fs /\ UNCHANGED res
               /\ IF f.todo = <<>> THEN stack' = SetTop(p, [f EXCEPT !.pc = "scan"])
